@@ -132,7 +132,8 @@ pub fn for_property(prop: &str) -> Vec<Family> {
         "C10" => vec![f("isolate", "k objects blocked on gates that stay closed, pool maximum above the number of stalled threads, other objects must finish before the gates open", gen_isolate, Q, T)],
         "C11" => vec![
             f("pipe-in", "pipe_in with items arriving before/during/after polls (single items and bursts), concurrent sync/desync/futures on the target, the target dropped while the stream is open", gen_pipe_in, Q * 5 / 8, T * 5 / 8),
-            sw("pipe-in-drop-sweep", "the last owner of the target released at every scheduling point of the context polling the input, through bursts of up to 14 ready items", gen_pipe_in_drop_sweep, Q * 3 / 8, T * 3 / 8, 160),
+            sw("pipe-in-drop-sweep", "the last owner of the target released at every scheduling point of the context polling the input, through bursts of up to 14 ready items", gen_pipe_in_drop_sweep, Q / 4, T / 4, 160),
+            sw("pipe-in-wake-drop-sweep", "the last owner of the target released at every scheduling point of the thread that notifies the input (where the pipe briefly upgrades its weak reference), with every pool thread stalled", gen_pipe_in_wake_drop_sweep, Q / 8, T / 8, 64),
         ],
         "C12" => vec![f("pipe-out", "pipe with depth 1..5, consumer reading by blocking and by single polls, producer pushing and closing", gen_pipe_out, Q, T)],
         "C14" => vec![
